@@ -414,6 +414,23 @@ cleanStale()
     closedir(d);
     for (const auto &v : victims)
         unlink(v.c_str());
+    // db directories of dead harness processes
+    if (DIR *t = opendir("/tmp")) {
+        std::vector<std::string> dirs;
+        while (const auto e = readdir(t)) {
+            const std::string n = e->d_name;
+            if (n.compare(0, 9, "verif-rr-") != 0)
+                continue;
+            const long pid = atol(n.c_str() + 9);
+            if (pid > 0 && kill(static_cast<pid_t>(pid), 0) != 0)
+                dirs.push_back("/tmp/" + n);
+        }
+        closedir(t);
+        for (const auto &dname : dirs) {
+            unlink((dname + "/rock").c_str());
+            rmdir(dname.c_str());
+        }
+    }
 }
 
 int
